@@ -1,16 +1,18 @@
 #!/bin/bash
-# usage: try_mutant.sh <patch.diff> <check-id> [<check-id> ...]    (env SEED, TIER)
-# Applies a seeded change to /repo's working tree, runs the named checks, prints one line per check, and ALWAYS restores /repo.
+# usage: try_mutant.sh <patch.diff> <check-id> [<check-id> ...]    (env SEED, TIER, MUT_REPO)
+# Applies a seeded change to a working tree of jrhy/mast (default /repo; MUT_REPO = a scratch worktree of it), runs the named checks
+# against that tree, prints one line per check, and ALWAYS restores the tree.
 patch=$1; shift
-cd /repo || exit 2
-if [ -n "$(git status --porcelain)" ]; then echo "/repo is not clean"; exit 2; fi
-restore() { git -C /repo checkout -- . ; git -C /repo clean -fdq; }
+repo=${MUT_REPO:-/repo}
+cd "$repo" || exit 2
+if [ -n "$(git status --porcelain)" ]; then echo "$repo is not clean"; exit 2; fi
+restore() { git -C "$repo" checkout -- . ; git -C "$repo" clean -fdq; }
 trap restore EXIT
 git apply "$patch" || { echo "patch does not apply"; exit 2; }
 export GOFLAGS=-mod=mod GOPROXY=off GOSUMDB=off GOTOOLCHAIN=local
 go build ./... || { echo "does not build"; exit 2; }
 for c in "$@"; do
-  out=$(cd /verif && timeout 1500 ./check $c --tier ${TIER:-quick} --seed ${SEED:-1} 2>&1); rc=$?
+  out=$(cd /verif && VERIF_REPO="$repo" timeout 1500 ./check $c --tier ${TIER:-quick} --seed ${SEED:-1} 2>&1); rc=$?
   case $rc in 1) r=CAUGHT;; 0) r=MISSED;; *) r="UNDECIDED($rc)";; esac
   echo "$c $r  $(echo "$out" | grep -A1 '^VIOLATION' | sed -n 2p | cut -c1-160)"
   [ $rc -ge 2 ] && echo "$out" | tail -5
